@@ -1,6 +1,6 @@
 PROPERTY = 'C13'
 LEVEL = 'proof'
-VERUS = ['verus/C13.rs']
+VERUS = ['verus/C13.rs', 'verus/C07.rs', 'verus/C07_decrease.rs']
 TRUSTED = [
     'prelude / monomorphisation / U256 contract as in C01 (instance u128, 20 decimals); apply_factor, checked_signed_sub, checked_add_with_signed, to_signed are called through their C01 contracts, re-proved in this same run',
     'carrier BMarket for `Self: BorrowingFeeMarket(+Mut)`: borrowing_factor_pool{,_mut}(), total_borrowing_pool{,_mut}(), open_interest(), passed_in_seconds_for_borrowing() as fallible field reads / `&mut` projections (real bodies, verified); borrowing_factor_per_second(is_long, prices) is read as a fallible table by side (NOT under contract here); carrier Sides{long, short} for `Self::Pool` with the Pool-trait contract (checked signed addition per side; the store-side pool is C15); carriers Pos / UpdateBorrowingState for `Self` of the two `&mut self` methods',
@@ -8,25 +8,17 @@ TRUSTED = [
 ]
 UNVERIFIED = [
     'BorrowingFeeMarketExt::borrowing_factor_per_second (reserved value, skip-for-smaller-side, kink model or exponent model): only its type (an unsigned rate) is used; its formula is not under contract in this check',
-    'the ORDER at the two call sites (update_total_borrowing is called with the next size and the current cumulative factor BEFORE the position size / factor fields are written, in IncreasePosition::execute and DecreasePosition::execute): located by text on every run (lost => exit 2), not proved',
+    'the ORDER at the two call sites is now PROVED (units C07.IncreasePosition.execute / C07.DecreasePosition.execute, run in this check too): update_total_borrowing is called exactly once, while the position still holds its old size and borrowing factor, with exactly the size and factor the position ends with (a ghost log on the position carrier records each call with the values the position held at that moment); update_total_borrowing itself is the unit C13.update_total_borrowing',
     'the aggregate identity over ALL open positions and its preservation over histories: lemma_total_borrowing_le proves sum_i floor(size_i x factor_i) <= floor(open interest x cumulative factor) for settlement factors <= the cumulative factor, and update_total_borrowing replaces exactly one term of that sum; the composition over an unbounded history (and "open interest == sum of sizes", which is C07) is not mechanised',
     'failure atomicity of UpdateBorrowingState::execute_one_side is not stated (Verus limitation on `&mut` temporaries at an inner `?` exit, see DESIGN 8.7)',
     'no native replay registered; a failed obligation is reported with the verifier output and no-failing-input-found',
 ]
 ASSUMPTIONS = []
 MANIFEST = dict(engine='verus',
-    technique='Verus contracts on the trait-default methods BorrowingFeeMarketExt::{cumulative_borrowing_factor, next_cumulative_borrowing_factor, total_pending_borrowing_fees}, PositionMutExt::update_total_borrowing, PoolExt::apply_delta_amount and UpdateBorrowingState::execute_one_side, extracted from /repo each run onto carriers for Self (with `&mut`-returning accessors); sum lemma by induction over positions',
+    technique='Verus contracts on IncreasePosition::execute / DecreasePosition::execute (ghost log: total borrowing updated once, before the size and factor writes, with the values the position ends with) and on the trait-default methods BorrowingFeeMarketExt::{cumulative_borrowing_factor, next_cumulative_borrowing_factor, total_pending_borrowing_fees}, PositionMutExt::update_total_borrowing, PoolExt::apply_delta_amount and UpdateBorrowingState::execute_one_side, extracted from /repo each run onto carriers for Self (with `&mut`-returning accessors); sum lemma by induction over positions',
     text='Deductive proof, unbounded over all pool amounts, rates, durations, sizes and factors: the next cumulative borrowing factor is the current one plus rate x seconds (never smaller) and execute_one_side stores exactly that on that side only; update_total_borrowing moves the side total by exactly floor(next size x next factor) - floor(size x last factor) and touches nothing else, failing without change otherwise; total_pending_borrowing_fees == floor(open interest x next cumulative factor) - total borrowing, is never negative, and always computes when the state is readable, the values representable and total borrowing <= floor(open interest x cumulative factor); lemma: the sum over positions of floor(size x settlement factor) with settlement factors <= the cumulative factor is at most floor(sum of sizes x cumulative factor), i.e. the accounting identity of the statement implies that invariant.',
     note='borrowing_factor_per_second itself, the call order at the two call sites and the composition over histories are listed as unverified.')
 
 
 def extra(res, repo, tier, seed):
-    import os, re
-    for f in ['crates/model/src/action/increase_position.rs', 'crates/model/src/action/decrease_position/mod.rs']:
-        s = open(os.path.join(repo, f)).read()
-        i = s.find('.update_total_borrowing(')
-        j = s.find('*self.position.size_in_usd_mut() =')
-        k = s.find('*self.position.borrowing_factor_mut() = next_position_borrowing_factor;')
-        c = s.find('.cumulative_borrowing_factor(is_long)?;')
-        if min(i, j, k, c) < 0 or not (c < i < j and i < k) or len(re.findall(r'\.update_total_borrowing\(', s)) != 1:
-            res.undecided.append(f'anchor lost: {f}: update_total_borrowing must be called once, after reading the cumulative factor and before the position size / factor fields are written')
+    pass
